@@ -345,17 +345,32 @@ pub fn c18_worker(ctx: &mut Ctx) {
     };
     let exe = std::env::current_exe().unwrap();
     let mut jobs: Vec<(String, usize, usize)> = Vec::new();
+    // "dev" = unoptimised build (opt-level 0, as `cargo test` / `cargo build` produce): tail calls are not turned into
+    // loops there, so recursion that an optimised build hides shows; the Boolean scenarios are left to the optimised build
+    let dev = ctx.variant == "dev";
     for s in C18_SCENARIOS {
         for stack_kib in [0usize, 2048] {
             jobs.push((s.to_string(), n_tree, stack_kib));
         }
     }
-    for s in C18_BOOLEAN_SCENARIOS {
-        for &n in &n_comb {
-            for stack_kib in [0usize, 2048] {
-                jobs.push((s.to_string(), n, stack_kib));
+    for s in crate::splaymon::c18_shape_scenarios() {
+        // every shape on the small stack; on the main stack a third of them (rotating with the seed)
+        jobs.push((s.clone(), n_tree, 2048));
+        if (crate::util::fnv64(s.as_bytes()) ^ ctx.seed) % 3 == 0 {
+            jobs.push((s, n_tree, 0));
+        }
+    }
+    if !dev {
+        for s in C18_BOOLEAN_SCENARIOS {
+            for &n in &n_comb {
+                for stack_kib in [0usize, 2048] {
+                    jobs.push((s.to_string(), n, stack_kib));
+                }
             }
         }
+    } else if ctx.tier == Tier::Quick {
+        // the unoptimised build is several times slower: every other scenario in the quick tier
+        jobs = jobs.into_iter().enumerate().filter(|(i, _)| (*i as u64 + ctx.seed) % 2 == 0).map(|(_, j)| j).collect();
     }
     for (idx, (scenario, n, stack_kib)) in jobs.iter().enumerate() {
         if ctx.only_index.map(|o| o != idx as u64).unwrap_or(idx as u64 % ctx.nshards != ctx.shard) {
@@ -383,8 +398,8 @@ pub fn c18_worker(ctx: &mut Ctx) {
                     let class = if stderr.contains("overflowed its stack") || o.status.signal() == Some(11) || o.status.signal() == Some(6) { "stack-overflow" } else { "scenario-failed" };
                     ctx.violation(
                         &format!("c18:{}", class),
-                        &format!("scenario {} with n={} on the {}: child {}; {} {}", scenario, n, stack_name, how, stdout.trim(), stderr.lines().last().unwrap_or("")),
-                        json!({"kind": "c18", "property": "C18", "scenario": scenario, "n": n, "stack_kib": stack_kib}),
+                        &format!("scenario {} with n={} on the {} ({} build): child {}; {} {}", scenario, n, stack_name, ctx.variant, how, stdout.trim(), stderr.lines().last().unwrap_or("")),
+                        json!({"kind": "c18", "property": "C18", "scenario": scenario, "n": n, "stack_kib": stack_kib, "variant": ctx.variant}),
                     );
                 }
                 ctx.note_nontrivial(crate::util::fnv64(format!("{}-{}-{}", scenario, n, stack_kib).as_bytes()));
@@ -398,7 +413,12 @@ pub fn c18_worker(ctx: &mut Ctx) {
 }
 
 pub fn c18_replay(r: &Value) -> Result<String, Fail> {
-    let exe = std::env::current_exe().unwrap();
+    // a scenario that failed in the unoptimised build is replayed with that build (default location under /verif)
+    let exe = if r["variant"] == "dev" {
+        std::path::PathBuf::from(std::env::var("VCHECK_BIN_DEV").unwrap_or_else(|_| format!("{}/target/debug/vcheck", crate::util::verif_root())))
+    } else {
+        std::env::current_exe().unwrap()
+    };
     let o = std::process::Command::new(&exe)
         .args(["c18-child", r["scenario"].as_str().unwrap(), &r["n"].as_u64().unwrap().to_string(), &r["stack_kib"].as_u64().unwrap().to_string()])
         .output()
